@@ -20,9 +20,9 @@ ASSUMPTIONS = ["fields are 1-D or 2-D numpy arrays"]
 ANCHORS = ["npdataclasses.py::NpDataClass._assert_same_lens", "npdataclasses.py::npdataclass.FinalClass.__init__", "npdataclasses.py::NpDataClass.__getitem__",
            "npdataclasses.py::NpDataClass.__iter__", "npdataclasses.py::NpDataClass.__array_function__", "npdataclasses.py::npdataclass.FinalClass.__eq__",
            "npdataclasses.py::NpDataClass.astype", "npdataclasses.py::VarLenArray.__array_function__", "npdataclasses.py::NpDataClass.__len__"]
-OPS = ["len", "badlen", "idx", "iter", "concat", "eq", "astype", "vla"]
+OPS = ["len", "badlen", "idx", "iter", "concat", "eq", "astype", "vla", "inherit"]
 FLOOR_TAGS = ["op:" + o for o in OPS] + ["idx:int", "idx:slice", "idx:list", "idx:mask", "idx:boollist", "idx:emptylist", "len:0", "fields:1", "fields:4",
-                                         "astype:reordered", "astype:same-order", "eq:same", "eq:cell-differs", "eq:length-differs", "field:2d", "field:float", "badlen:first", "badlen:other", "vla:fortran"]
+                                         "astype:reordered", "astype:same-order", "eq:same", "eq:cell-differs", "eq:length-differs", "field:2d", "field:float", "badlen:first", "badlen:other", "vla:fortran", "inherit:badlen", "inherit:eq", "inherit:idx"]
 FLOOR_MONITORS = ["c18:compare", "c18:aligned"]
 N_RANDOM = {"quick": 32000, "thorough": 200000}
 _CLS = {}
@@ -35,6 +35,69 @@ def get_cls(names):
         ns = {"__annotations__": {n: np.ndarray for n in names}}
         _CLS[key] = CTX.lib.npdataclass(type("T_" + "_".join(names), (), ns))
     return _CLS[key]
+
+
+_DERIVED = {}
+
+
+def get_derived(nbase, nextra):
+    """(base class with nbase fields, class derived from it with nextra more fields); the base class is *used first*"""
+    key = (nbase, nextra)
+    if key not in _DERIVED:
+        lib = CTX.lib
+        bns = {"__annotations__": {"b%d" % i: np.ndarray for i in range(nbase)}}
+        Base = lib.npdataclass(type("Base%d_%d" % key, (), bns))
+        Base(*[np.arange(2) for _ in range(nbase)])        # an object of the base class exists before the derived class is defined / used
+        dns = {"__annotations__": {"x%d" % i: np.ndarray for i in range(nextra)}}
+        Derived = lib.npdataclass(type("Derived%d_%d" % key, (Base,), dns))
+        _DERIVED[key] = (Base, Derived)
+    return _DERIVED[key]
+
+
+def run_inherit(case, tags):
+    nb, nx, L = case["nbase"], case["nextra"], case["L"]
+    Base, Derived = get_derived(nb, nx)
+    k = nb + nx
+    fs = [field("1d", i, L) for i in range(k)]
+    tags += ["fields:%d" % k]
+    o = attempt(lambda: Derived(*[f.copy() for f in fs]))
+    if not o.ok:
+        return violated("constructing a derived npdataclass with %d inherited and %d own fields raised %r" % (nb, nx, o), tags)
+    o = o.value
+    names = [f.name for f in dataclasses.fields(o)]
+    if len(names) != k:
+        return violated("a derived npdataclass with %d + %d fields reports fields %s" % (nb, nx, names), tags)
+    msg = aligned(o, tags)
+    if msg:
+        return violated("derived npdataclass: %s" % msg, tags)
+    sub = case["sub"]
+    if sub == "badlen":
+        fs2 = list(fs)
+        fs2[-1] = field("1d", k - 1, L + 2)
+        a = attempt(lambda: Derived(*fs2))
+        if a.ok:
+            return violated("a derived npdataclass accepted an own field of length %d next to inherited fields of length %d" % (L + 2, L), tags)
+    elif sub == "eq":
+        fs3 = [f.copy() for f in fs]
+        if L:
+            fs3[-1][0] += 1
+            a = attempt(lambda: o == Derived(*fs3))
+            if not a.ok or bool(a.value):
+                return violated("two derived npdataclass objects that differ in an own (not inherited) field compare equal: %r" % (a,), tags)
+    elif sub == "idx":
+        idx = slice(None, None, -1)
+        a = attempt(lambda: o[idx])
+        if not a.ok or not all(eqf(g, f[idx]) for g, f in zip(fields_of(a.value), fs)) or len(fields_of(a.value)) != k:
+            return violated("indexing a derived npdataclass gives %s" % (repr(a) if not a.ok else short([np.asarray(g).tolist() for g in fields_of(a.value)], 200)), tags)
+    elif sub == "concat":
+        a = attempt(lambda: np.concatenate([o, o]))
+        if not a.ok or not all(eqf(g, np.concatenate([f, f])) for g, f in zip(fields_of(a.value), fs)) or len(fields_of(a.value)) != k:
+            return violated("concatenating derived npdataclass objects gives %s" % (repr(a) if not a.ok else short([np.asarray(g).tolist() for g in fields_of(a.value)], 200)), tags)
+    elif sub == "iter":
+        a = attempt(lambda: list(o))
+        if not a.ok or len(a.value) != L or not all(all(eqf(g, f[i]) for g, f in zip(fields_of(e), fs)) for i, e in enumerate(a.value)):
+            return violated("iterating a derived npdataclass gives %s" % (repr(a) if not a.ok else "%d entries" % len(a.value)), tags)
+    return held(tags + ["inherit:" + sub], L >= 2)
 
 
 def field(kind, fidx, L, offset=0):
@@ -94,6 +157,8 @@ def run(case):
             return violated("%s gives %s, expected right-aligned zero-padded %s" % (desc, short(getattr(a.value, "array", a.value), 200), short(exp, 200)), tags)
         return held(tags, len(arrs) >= 2 and len(set(case["widths"])) >= 2)
 
+    if op == "inherit":
+        return run_inherit(case, tags)
     kinds, L = case["kinds"], case["L"]
     k = len(kinds)
     names = ["f%d" % i for i in range(k)]
@@ -219,8 +284,11 @@ def gen_case(rng, tier, op=None, k=None, L=None):
     if op == "vla":
         m = rng.randint(1, 4)
         widths = [rng.randint(1, 4) for _ in range(m)]
-        arrays = [[[rng.randint(1, 9) for _ in range(w)] for _ in range(rng.randint(0, 3))] for w in widths]
+        big = rng.random() < 0.2
+        arrays = [[[rng.choice([2 ** 53 + 1, 2 ** 63 - 1, 2 ** 62 + 3, 5]) if big else rng.randint(1, 9) for _ in range(w)] for _ in range(rng.randint(0, 3))] for w in widths]
         return {"op": op, "widths": widths, "arrays": arrays, "order": rng.choice(["C", "C", "F", "T"])}
+    if op == "inherit":
+        return {"op": op, "nbase": rng.randint(1, 2), "nextra": rng.randint(1, 2), "L": rng.randint(0, 5) if L is None else L, "sub": rng.choice(["badlen", "eq", "idx", "concat", "iter"])}
     k = k or rng.randint(1, 4)
     L = rng.randint(0, 7) if L is None else L
     kinds = [rng.choice(["1d", "2d", "f", "2dF"]) for _ in range(k)]
@@ -277,6 +345,7 @@ def directed():
     yield {"op": "idx", "kinds": ["1d"], "L": 3, "ikind": "mask", "idx": [True, False, True]}
     yield {"op": "vla", "widths": [2, 4, 1], "arrays": [[[1, 2]], [[3, 4, 5, 6], [7, 8, 9, 1]], [[2], [3]]]}
     yield {"op": "vla", "widths": [3, 3], "arrays": [[[1, 2, 3]], [[4, 5, 6]]]}
+    yield {"op": "vla", "widths": [1, 3], "arrays": [[[2 ** 53 + 1], [2 ** 63 - 1]], [[4, 5, 2 ** 62 + 3]]]}
     for order in ("F", "T"):
         yield {"op": "vla", "widths": [2, 4, 3], "arrays": [[[1, 2], [3, 4], [5, 6]], [[3, 4, 5, 6], [7, 8, 9, 1]], [[2, 3, 4], [5, 6, 7]]], "order": order}
 
